@@ -160,10 +160,22 @@ pub fn run(ctx: &mut Ctx) -> Result<(), Violation> {
     for saltlen in 0..=7usize {
         cases.push(Case { alg: 2, outlen: 32, password: Hex(f.bytes(4)), salt: Hex(f.bytes(saltlen)), ops: 1, mem: 8192 });
     }
-    for (ops, mem) in [(0u64, 8192usize), (4294967296, 8192), (u64::MAX, 8192), (1, 0), (1, 1), (1, 8191), (1, MEMLIMIT_MAX + 1), (1, usize::MAX), (0, 0)] {
+    // out-of-range costs. Values above the maximum are chosen so that a truncating conversion (the likely slip)
+    // lands on a SMALL in-range cost and returns quickly: the wrong acceptance is then seen deterministically.
+    for (ops, mem) in [
+        (0u64, 8192usize), (4294967296, 8192), (4294967297, 8192), (4294967298, 8192), ((1 << 33) + 3, 8192), ((1 << 63) + 1, 8192), ((1 << 40) + 2, 8192),
+        (1, 0), (1, 1), (1, 8191), (1, MEMLIMIT_MAX + 1), (1, MEMLIMIT_MAX + 1 + 8192), (1, (1 << 42) + 16384), (1, (1usize << 52) + 8192), (0, 0),
+    ] {
         for a in 1..=2 {
             cases.push(Case { alg: a, outlen: 32, password: Hex(f.bytes(4)), salt: Hex(f.bytes(16)), ops, mem });
         }
+    }
+    // values whose truncation would be a HUGE cost (u64::MAX -> t = 2^32-1, usize::MAX -> 2^54 KiB) are run last, each in a
+    // forked child under an alarm: a child that is still computing when the alarm fires makes the check inconclusive
+    // (exit 2), never a violation - wall-clock is not used as a correctness signal.
+    let mut contained: Vec<Case> = vec![];
+    for (ops, mem) in [(u64::MAX, 8192usize), (u64::MAX - 1, 65536), (1, usize::MAX), (3, usize::MAX - 1023)] {
+        contained.push(Case { alg: 2, outlen: 32, password: Hex(f.bytes(4)), salt: Hex(f.bytes(16)), ops, mem });
     }
     ctx.par_each(&cases, |_, c, ev| {
         ev.eval(1);
@@ -197,6 +209,26 @@ pub fn run(ctx: &mut Ctx) -> Result<(), Violation> {
             check(c)
         })
     })?;
+    for c in &contained {
+        let (code, text) = in_child(20, || match check(c) {
+            Ok(()) => (0, String::new()),
+            Err(m) => (1, m),
+        });
+        ctx.ev.eval(1);
+        ctx.ev.class("out-of-range-must-Err (contained in a child process)");
+        match code {
+            0 => {}
+            1 => return Err(Violation::new("C09", "argon2", text, serde_json::to_value(c).unwrap())),
+            c2 if c2 == -(libc::SIGALRM) => {
+                eprintln!("INCONCLUSIVE: crypto_pwhash(ops={}, mem={}) neither returned Err nor finished within 20 s: out-of-range costs appear to be accepted (run contained; not counted as a violation because a clock is not an oracle)", c.ops, c.mem);
+                std::process::exit(2);
+            }
+            other => {
+                eprintln!("INCONCLUSIVE: contained out-of-range case ended with status {other}: {text}");
+                std::process::exit(2);
+            }
+        }
+    }
     if ctx.tier == Tier::Thorough {
         python_cross_check(ctx)?;
     }
